@@ -298,6 +298,39 @@ class Note(BaseM):
     user = orm.relationship("User", cascade="save-update")
 
 
+# archive twin of gm_user (same column NAMES, not derived from the mapped table): target of
+# aliased(User, <selectable>, adapt_on_names=True)
+user_arch = sa.Table(
+    "gm_user_arch", BaseM.metadata,
+    sa.Column("id", sa.Integer, primary_key=True), sa.Column("name", sa.String(40)), sa.Column("age", sa.Integer),
+    sa.Column("bio", sa.String(200)), sa.Column("px", sa.Integer), sa.Column("py", sa.Integer),
+)
+
+
+class Emp(BaseM):
+    """joined-table inheritance, for with_polymorphic() / flat aliases"""
+
+    __tablename__ = "gm_emp"
+    id = sa.Column(sa.Integer, primary_key=True)
+    kind = sa.Column(sa.String(10))
+    name = sa.Column(sa.String(40))
+    __mapper_args__ = {"polymorphic_on": kind, "polymorphic_identity": "emp"}
+
+
+class Eng(Emp):
+    __tablename__ = "gm_eng"
+    id = sa.Column(sa.ForeignKey("gm_emp.id"), primary_key=True)
+    lang = sa.Column(sa.String(20))
+    __mapper_args__ = {"polymorphic_identity": "eng"}
+
+
+class Mgr(Emp):
+    __tablename__ = "gm_mgr"
+    id = sa.Column(sa.ForeignKey("gm_emp.id"), primary_key=True)
+    budget = sa.Column(sa.Integer)
+    __mapper_args__ = {"polymorphic_identity": "mgr"}
+
+
 def zoo_rows():
     """fixture rows of the C45 / C51 zoo, as {table: [dict, ...]}"""
     return {
@@ -316,6 +349,14 @@ def zoo_rows():
                             dict(user_id=2, keyword_id=2), dict(user_id=2, keyword_id=3)],
         "gm_profile": [dict(id=21, user_id=1, motto="m21"), dict(id=23, user_id=3, motto="m23")],
         "gm_note": [dict(id=31, user_id=1, text="n31"), dict(id=32, user_id=None, text="n32")],
+        "gm_user_arch": [
+            dict(id=1, name="old1", age=71, bio="obio1", px=8, py=9),
+            dict(id=7, name="old7", age=77, bio=None, px=None, py=1),
+        ],
+        "gm_emp": [dict(id=1, kind="emp", name="e1"), dict(id=2, kind="eng", name="e2"),
+                   dict(id=3, kind="mgr", name="e3"), dict(id=4, kind="eng", name="e4")],
+        "gm_eng": [dict(id=2, lang="py"), dict(id=4, lang="c")],
+        "gm_mgr": [dict(id=3, budget=30)],
     }
 
 
